@@ -10,7 +10,7 @@ spec/Mutations.tla      truncations / deletions / replacements / insertions of v
 spec/C01Trace.tla       every recorded execution gets its verdict from TLC (monitor form): tokens Located,
                         outcome is a tree or a ParseError whose token is Located; pump calls as PumpCore makes them.
 """
-import json, os, random
+import hashlib, json, os, random
 from concurrent.futures import ThreadPoolExecutor
 import vlib
 from vlib import MachineryFault
@@ -103,12 +103,14 @@ def validate(ctx, trace_files, tag, groups=32):
     if res.violated:
         raise MachineryFault("C01Trace reported %s" % res.violated)
     verdicts = {}
+    nverd = 0
     with open(res.beh_path) as f:
         for line in f:
             v = json.loads(line)
             verdicts[v["id"]] = v
-    if len(verdicts) != n + len(canaries):
-        raise MachineryFault("C01Trace gave %d verdicts for %d records" % (len(verdicts), n + len(canaries)))
+            nverd += 1
+    if nverd != n + len(canaries) or len(verdicts) != nverd:
+        raise MachineryFault("C01Trace gave %d verdicts (%d distinct ids) for %d records" % (nverd, len(verdicts), n + len(canaries)))
     for cid, ok in canaries.items():
         if not ok(verdicts[cid]):
             raise MachineryFault("canary %s was accepted by C01Trace (validator is vacuous): %s" % (cid, verdicts[cid]))
@@ -260,6 +262,7 @@ def run(ctx):
         n2 = 0
         want = 1500 if quick else 15000
         pool = [line for line in open(mut2.beh_path) if '"steps":1,' not in line]
+        pool.sort()               # TLC's workers print in any order; the sample depends on the seed only
         ctx.rng.shuffle(pool)
         for line in pool:
             if n2 >= want:
@@ -284,14 +287,15 @@ def run(ctx):
             if k in gseen:
                 continue
             gseen.add(k)
-            if quick and b["fam"] in ("seq", "declorder") and (len(gseen) + ctx.seed) % 4 != 0:
+            if quick and b["fam"] in ("seq", "declorder") and len(b["toks"]) > 0 \
+                    and (int(hashlib.sha1(k.encode()).hexdigest()[:8], 16) + ctx.seed) % 4 != 0:
                 continue        # the long order families: a seeded quarter in the quick tier
             ng += 1
             n_in += 1
             gram_ids.add("gr%d" % ng)
             # every generated program, and cut after its first third / two thirds (truncated valid programs)
             out.write(json.dumps({"id": "gr%d" % ng, "toks": b["toks"], "class": {"source": "grammar", "fam": b["fam"]}}) + "\n")
-            for cut in (len(b["toks"]) // 3, 2 * len(b["toks"]) // 3):
+            for cut in sorted({len(b["toks"]) // 3, 2 * len(b["toks"]) // 3} - {0, len(b["toks"])}):
                 n_in += 1
                 out.write(json.dumps({"id": "gr%d_cut%d" % (ng, cut), "toks": b["toks"][:cut],
                                       "class": {"source": "grammar-truncated", "fam": b["fam"]}}) + "\n")
